@@ -89,6 +89,38 @@ CHECKS["C22"] = dict(
    design="5/C22", technique="Coq proof of cardinality; exhaustive small-width sweep of the real joins/meets/queries",
    note="Trusted: Coq kernel; Model/SI.v; sweep oracle = member enumeration from the definition. Mostly testing, not proof.")
 
+CHECKS["C12"] = dict(
+   text="Machine-checked proof (Coq) of the principle SolverComposite rests on, for every set of constraint groups: if the groups share no "
+        "variable, the whole is satisfiable iff every group is (C12_sat, by gluing assignments), and the values an expression takes over "
+        "all models are its values over the models of the groups it depends on provided the remaining groups are satisfiable (C12_eval); "
+        "that premise is necessary (C12_eval_needs_sat -- the defect repaired in _ensure_sat was exactly its omission). The bookkeeping of "
+        "CompositeFrontend (child creation, copy-on-write, reabsorption, merged-solver cache) is NOT modelled: after every step of random "
+        "histories (add, queries with/without extras, branch, simplify, split, combine, merge on trees of composites) the children are checked "
+        "to be together equivalent to what was added, and every answer is compared with enumeration of all 4096 assignments (testing).",
+   design="5/C12", technique="Coq proof of the independence principle; invariant-and-answer checking of histories against enumeration",
+   note="Trusted: Coq kernel; Z3 truthful. Four composite defects repaired (merge x3, _ensure_sat). Pairwise disjointness of children is not an "
+        "implementation invariant (stale redundant children after simplify).")
+CHECKS["C14"] = dict(
+   text="Machine-checked proof (Coq) over the functional store of frontends (Model/Frontend.v): an operation addressed to one solver leaves "
+        "every other solver's bookkeeping unchanged (C14_step, C14_history), a branch starts as a copy of its parent (C14_branch), what a solver "
+        "accepts changes only by its own additions (C14_add). The real objects share Z3 solvers, model caches and composite children between "
+        "branches; that they refine the store is checked by (0) comparing every solver's constraint list with the extracted store after random "
+        "add/branch/query histories, (1) interleaved histories on trees of up to 6 branches of the exact solvers against enumeration, (2) for all "
+        "six frontend classes, each solver of a tree against a replica that saw only its own lineage (testing).",
+   design="5/C14", technique="Coq isolation theorems on a functional store; store correspondence; tree histories and lineage replicas",
+   note="Trusted: Coq kernel; Model/Frontend.v hand-written. The sharing mechanisms themselves are outside the proved model. "
+        "The check runs in a child process so that an interpreter crash in Z3 is reported as a violation.")
+CHECKS["C15"] = dict(
+   text="Machine-checked proof (Coq) over Model/Frontend.v (ConstrainedFrontend + filter/deduplicator mixins): add accepts exactly the models of "
+        "old and new constraints (C15_add, with the invariant that dropped duplicates are implied); merge has exactly the models of some "
+        "condition_i with the i-th constraint set (C15_merge), with an ancestor the ancestor's models satisfying some condition "
+        "(C15_merge_ancestor); combine has the models of all sets (C15_combine); split's grouping puts every conjunct with a variable in exactly "
+        "one group, no variable in two groups, and all variables of a conjunct in its group (C15_split_groups). Tie: extracted model vs real "
+        "Solver/SolverCacheless constraint lists. SolverComposite's own merge/split/combine, Z3 and the caches are not modelled: all classes "
+        "are judged against enumeration of the 4096 assignments (model sets, satisfiable, eval).",
+   design="5/C15", technique="Coq proofs over a hand-written frontend model; constraint-list correspondence; enumeration of model sets",
+   note="Trusted: Coq kernel; Model/Frontend.v. Known finding: SolverComposite keeps a concrete False only as a flag. Three composite merge defects repaired.")
+
 REASONS = {}
 DEFAULT_REASON = "not claimed yet: its Coq model and correspondence harness are not built in this snapshot (see DESIGN.md section 10 for the order); no other technique is substituted"
 
